@@ -335,8 +335,14 @@ fn build_world(rt: &tokio::runtime::Runtime, spec: WorldSpec) -> Result<Built, S
     for (r, (id, vals)) in alive.iter().zip(rows.iter()) {
         if vals.is_some() != r.init.is_some() { return Err(format!("row kind of router {} does not match what was sent", id)); }
         let router_id = spec.template.replace("{sys_name}", &id.to_string()).replace("{router_ip}", "IP").replace("{router_port}", "PORT");
-        // the peer table's iteration order, from the router's own page
-        let peers = match get(rt, &live, &format!("{api_uri}{id}")) {
+        // the peer table's iteration order, from the router's own page, asked for by a token no router that
+        // connected later answers to (the newest processor is asked first; a sysName may equal another
+        // router's ingress id or address)
+        let pos = alive.iter().position(|x| x.host == r.host).unwrap_or(0);
+        let newer_names: Vec<Vec<u8>> = alive.iter().skip(pos + 1).filter_map(|x| x.init.as_ref().map(|t| lossy(&t.0))).collect();
+        let token = [id.to_string(), format!("127.0.0.{}", r.host), router_id.clone()].into_iter().find(|t| !newer_names.iter().any(|n| n == t.as_bytes()))
+            .ok_or("every token of a router is shadowed by a newer router's sysName")?;
+        let peers = match get(rt, &live, &format!("{api_uri}{}", pct_path(token.as_bytes()))) {
             Obs::Resp { status: 200, body, .. } => {
                 let b = String::from_utf8_lossy(&body).into_owned();
                 b.split("/flags/").skip(1).filter_map(|c| c.split("\">more</a>").next().map(|s| s.to_string())).collect::<Vec<_>>()
@@ -691,7 +697,7 @@ fn main() {
         let spec = gen_world(args.seed, k, args.thorough);
         let w = match build_world(&rt, spec) {
             Ok(w) => w,
-            Err(e) => { rec.bump(&format!("world.failed:{}", e.replace(' ', "_"))); continue; }
+            Err(e) => { if std::env::var("VERIF_DEBUG").is_ok() { eprintln!("world {k} failed: {e}: {:?}", gen_world(args.seed, k, args.thorough)); } rec.bump(&format!("world.failed:{}", e.replace(' ', "_"))); continue; }
         };
         rec.bump("world.built");
         rec.bump_by("world.routers-connected", w.routers.len() as u64);
